@@ -357,3 +357,57 @@ def sibling_calls(rep, rule, key, F, cg, fa, fb, selector, rename, what):
     sa, sb = sel(A), sel(Bb)
     ok = sa == sb and bool(sa)
     rep.add(rule, key, what, ok, '%s:%d' % (A.file, A.line), '' if ok else '%s and %s differ: %s vs %s' % (fa.split('::')[-1], fb, sa, sb), [str(sa)])
+
+
+def traversal_setup(rep, F, cg):
+    from panics import known_facts
+    MEMFS = 'sys::fs::memfs::vfs::Memfs'
+    STDFS = 'sys::fs::stdfs::Stdfs'
+    rep.rule('TRAVERSAL-SETUP', '_chmod iterates entries(path).contents_first().max_depth(R).follow(opts.follow).dirs_first().pre_op(..) and _chown iterates '
+             'entries(path).max_depth(R).follow(opts.follow), where R is usize::MAX when opts.recursive and 0 otherwise — identically on both backends')
+    want = {'_chmod': ['contents_first', 'dirs_first', 'follow', 'max_depth', 'pre_op'], '_chown': ['follow', 'max_depth']}
+    chains = {}
+    for be, ty in (('memfs', MEMFS), ('stdfs', STDFS)):
+        for h in ('_chmod', '_chown'):
+            fn = '<%s>::%s' % (ty, h)
+            if fn not in F.bodies:
+                rep.add('TRAVERSAL-SETUP', 'setup:%s:%s' % (be, h), '%s exists' % fn, False, detail='anchor missing')
+                continue
+            B = cg.body(fn)
+            sites = [i for i, tt in B.calls() if (callee_of(tt) or '') == '<%s as std::iter::IntoIterator>::into_iter' % ENTRIES]
+            if len(sites) != 1:
+                rep.add('TRAVERSAL-SETUP', 'setup:%s:%s' % (be, h), '%s iterates one Entries' % fn, False, detail='%d into_iter sites' % len(sites))
+                continue
+            root, ch = builder_chain(F, B, sites[0])
+            names = sorted(b for b, a in ch)
+            args = {b: a for b, a in ch}
+            ok = names == want[h]
+            fa = args.get('follow', [''])[0]
+            ok_follow = fa.endswith('.follow') and fa.startswith('arg')
+            # max_depth argument: a local assigned 0 / usize::MAX under the recursive switch
+            md_ok = False
+            for i, tt in B.calls():
+                if (callee_of(tt) or '').endswith('Entries>::max_depth'):
+                    l = op_local(tt['args'][1])
+                    for _ in range(4):      # through plain copies to the variable assigned in the two arms
+                        dd = B.whole_defs(l)
+                        if len(dd) == 1 and dd[0][0] == 'assign' and dd[0][4]['k'] == 'use' and op_local(dd[0][4]['op']) is not None:
+                            l = op_local(dd[0][4]['op'])
+                        else:
+                            break
+                    vals = {}
+                    for d in B.defs.get(l, []):
+                        if d[0] == 'assign' and d[4]['k'] == 'use' and d[4]['op']['k'] == 'const':
+                            v = d[4]['op'].get('int')
+                            facts = known_facts(B, d[1])
+                            rec = [tr for ds, tr in facts if ds.endswith('.recursive')]
+                            vals[v] = rec[0] if rec else None
+                    md_ok = vals == {'18446744073709551615': True, '0': False}
+            chains[(be, h)] = (names, fa.split('.')[-1], md_ok)
+            rep.add('TRAVERSAL-SETUP', 'setup:%s:%s' % (be, h), '%s configures its traversal as documented' % fn, ok and ok_follow and md_ok, B.loc(sites[0]),
+                    '' if (ok and ok_follow and md_ok) else '%s builds %s (follow from %s, max_depth by recursive: %s); documented: %s, follow(opts.follow), max_depth(recursive ? MAX : 0)' % (fn, names, fa, md_ok, want[h]))
+    for h in ('_chmod', '_chown'):
+        a, b = chains.get(('memfs', h)), chains.get(('stdfs', h))
+        ok = a is not None and a == b
+        rep.add('SIBLING', 'sibling:%s' % h, 'Memfs::%s and Stdfs::%s configure the traversal identically' % (h, h), ok, '', '' if ok else '%s vs %s' % (a, b))
+    rep.rule('SIBLING', 'mirrored functions of the two backends agree on the compared elements')
